@@ -1,6 +1,6 @@
 """C05 — each peer's messages delivered exactly once, whole, in order (engine: fq; socket-level recv
 filters are covered by the world engine)."""
-from vlib import fqgen, gen
+from vlib import fqgen, gen, worldgen
 from vlib.core import Case
 
 ID = "C05"
@@ -13,7 +13,8 @@ RULE = (
     "at its queue) in short schedules; seeded random schedules of 20-60 ops with 1..5 peers and window actions. "
     "Non-trivial: at least one delivery happened. Spec oracle on the implementation's trace: per peer, the delivered "
     "sequence is a duplicate-free prefix of the arrived sequence; after the final drain every item of a peer that was "
-    "inserted and never removed has been delivered."
+    "inserted and never removed has been delivered. Socket level: 400 (quick) / 6000 (thorough) seeded random schedules of "
+    "real PULL/SUB/DEALER/ROUTER/REP/XPUB sockets over scripted pipes, every recv result predicted by the World model."
 )
 ASSUMPTIONS = ["keys of simultaneously registered streams are distinct (peer identities are unique)",
                "parallel data races inside parking_lot / std collections are not modelled: one total order of events"]
@@ -26,12 +27,20 @@ def cases(tier, rng):
     out += list(fqgen.exhaustive(3, 4 if tier == "quick" else 5, "exh3"))
     out += list(fqgen.windows("window", tier != "quick"))
     out += list(fqgen.random_cases(rng, 1500 if tier == "quick" else 20000, "random"))
+    # socket level: the recv filters of the six receiving socket types on top of the queue — seeded random
+    # schedules of real sockets over scripted pipes (partial reads, peers attached mid-way, EOF, errors); the
+    # World model must predict every recv result
+    for i in range(400 if tier == "quick" else 6000):
+        out.append(worldgen.random_case(rng, f"sockets#{i}", ["PULL", "SUB", "DEALER", "ROUTER", "REP", "XPUB"],
+                                        tags=("socket-level-random",)))
     return out
 
 
 def oracle(case, lines):
     if any(l.startswith(("PANIC", "ABORT", "TIMEOUT")) for l in lines):
         return "the fair queue panicked"
+    if case.engine != "fq":
+        return None  # socket-level random schedules: exact prediction by the World model is the check
     a = fqgen.analyse(case, lines)
     for k, d in a["delivered"].items():
         arr = a["arrived"].get(k, [])
